@@ -225,11 +225,14 @@ specs["C15"] = {"runs": [
     run("cmd/hranoprovod-cli:Harness_app_pipeline", QT, {'command': 0, 'posbook': 1, 'E': 1, 'shapes': 3}, "real", cover=["ran"], note='`register --use-old-reg-reporter`: same records and numbers'),
     run("cmd/hranoprovod-cli:Harness_app_pipeline", QT, {'command': 12, 'posbook': 1, 'E': 1, 'shapes': 3}, "real", cover=["ran"], note='`register --no-totals`: exactly the food part'),
     run("cmd/hranoprovod-cli:Harness_app_pipeline", QT, {'command': 11, 'posbook': 1, 'E': 1, 'shapes': 3}, "real", cover=["ran"], note='`register --totals-only`: exactly the totals part'),
+    run("cmd/hranoprovod-cli:Harness_app_color", QT, {}, "fp", cover=["ran"], note="whole application: --no-color given globally or on the sub-command; coloured output minus escape codes = plain output; colour by sign (symbolic quantity) for four register variants"),
+    run("cmd/hranoprovod-cli:Harness_app_pipeline", QT, {"command": 14}, "real", cover=["ran"], note="`report quantity --desc`: the same rows as without it, in descending order"),
+    run("cmd/hranoprovod-cli:Harness_app_pipeline", QT, {"command": 15}, "real", cover=["ran"], note="`report element-total --desc x`: the same rows, in descending order"),
     run(CMD + "reporter:Harness_day_item_long_names", QT, {}, "real", cover=["item"], note="names longer than the columns that coincide after shortening: as foods outside the book, as elements of recipes, as recipes of the book"),
     run(CMD + "balance:Harness_balance_modes", Q, {"F": 2}, "real", owned=["collapse-"], cover=["printed"], note="collapse modes change only layout: same leaves and amounts (prefix-free sets), top-level rows add up to everything logged (every set)"),
     run(CMD + "balance:Harness_balance_modes", T, {"F": 3}, "real", owned=["collapse-"], cover=["printed"]),
  ], "assumptions": [REAL, DATA, "printable ASCII names for shortening"],
- "outside_claim": ["non-ASCII names in shorten", "--desc (C05 compares both orders separately)", "flag plumbing of presentation options (urfave/cli)"],
+ "outside_claim": ["non-ASCII names in shorten", ],
  "stubs": [FMT, BUFIO, "github.com/aquilax/truncate: executed from its real SSA (math.Ceil/Floor intrinsics)"]}
 
 prec_owned = ["explicit-missing-config-is-error", "load-ok", "database:", "logfile:", "date-format:", "maxdepth:", "today:"]
